@@ -131,25 +131,31 @@ def rule_regexcfg(E, R):
         if not h:
             R.cannot(rule, fn, "anchor not found")
             continue
-        nw = [c for c in exprs(h["body"], "Call") if norm(c.get("callee", "")) == RX + "::new"]
-        # the settings argument is `parser.settings()` of the parser handed to Regex::lex_with - taken here, or by the
-        # caller and passed down (the helper is analysed inlined into Regex::lex_with)
+        # analysed as part of Regex::lex_with, with the private helpers of the file followed: the compile step may sit in this
+        # function or in a helper shared by both lexers; the settings may be taken here or by the caller and passed down
         hl_ = E.hirs(r"LexWith<&ast::parse::FilterParser> for rhs_types::regex::\w+::Regex\}::lex_with$|Regex as lex::LexWith<&ast::parse::FilterParser>>::lex_with$")
         ok = False
-        if len(nw) == 1 and len(hl_) == 1:
-            Sx = sem.Sem(E, hl_[0])
-            for x in Sx.sites():
-                if x.node is nw[0]:
-                    v_ = Sx.resolve(x.node["args"][2], x.frame)
-                    r_ = sem.is_method(v_.node, "settings")
-                    ok = r_ is not None and sem.param_index(Sx, r_, v_.frame) == 1
-        R.check(ok, rule, fn, "compiled with the parser's own settings", where=h["span"])
-        errs = [c for c in exprs(h["body"], "Call") if last_seg(norm(c.get("callee", ""))) == "ParseRegex"]
+        nws, errs = [], []
+        Sx = None
+        if len(hl_) == 1:
+            Sx = sem.Sem(E, hl_[0], max_depth=3)
+            under = [x for x in Sx.sites() if fn in x.frame.chain()]
+            nws = [x for x in under if x.node.get("k") == "Call" and norm(x.node.get("callee", "")) == RX + "::new"]
+            errs = [x for x in under if x.node.get("k") == "Call" and last_seg(norm(x.node.get("callee", ""))) == "ParseRegex" and
+                    str(x.node.get("callee_kind", "")).startswith("Ctor")]
+            if len(nws) == 1:
+                v_ = Sx.resolve(nws[0].node["args"][2], nws[0].frame)
+                r_ = sem.is_method(v_.node, "settings")
+                ok = r_ is not None and sem.param_index(Sx, r_, v_.frame) == 1
+        R.check(ok, rule, fn, "compiled with the parser's own settings", "%d Regex::new sites reached from this lexer" % len(nws), h["span"])
         R.check(len(errs) == 1, "R11-validate", fn, "an invalid or over-limit regex is a parse error (ParseRegex)", where=h["span"])
         if fmt == "Raw":
-            src = local_name(nw[0]["args"][0]) if nw else None
-            bound = any(src in pat_bindings(s["pat"]) and any(norm(c.get("callee", "")).endswith("lex_raw_string_as_str") for c in exprs(s.get("init", {}), "Call"))
-                        for s in exprs(h["body"], "SLet"))
+            # the text handed to the engine is the raw string's content as lexed, untouched
+            bound = False
+            if len(nws) == 1:
+                ms = sem.provenance(Sx, nws[0].node["args"][0], nws[0].frame)[3]
+                bound = [m.strip("<>") for m in ms if not m.startswith("<") or m.strip("<>") == "lex_raw_string_as_str"][-1:] == ["lex_raw_string_as_str"] and \
+                    all(m.startswith("<") or m in ("lex_raw_string_as_str", "skip_space", "expect", "as_ref", "as_str", "borrow", "deref") for m in ms)
             R.check(bound, rule, fn, "a raw-string pattern reaches the engine verbatim", where=h["span"])
         else:
             # the only rewrite: backslash dropped before a quote outside a class
